@@ -140,6 +140,30 @@ func c14Scenarios() []c14Scenario {
 			return bodies, res, want, func() { plush.CacheEnabled = false; plush.VerifCacheReset() }
 		}})
 	}
+	sc = append(sc, c14Scenario{"contentFor-then-contentOf-in-a-later-exec", func(n int) ([]func(), []c14Res, []c14Res, func()) {
+		plush.CacheEnabled = false
+		def, _ := plush.NewTemplate(`<% contentFor("c") { %>[<%= x %>]<% } %>d<%= x %>`)
+		use, _ := plush.NewTemplate(`<%= contentOf("c") %>|<%= x %>|<%= contentOf("c") %>`)
+		res := make([]c14Res, n)
+		want := make([]c14Res, n)
+		var bodies []func()
+		for i := 0; i < n; i++ {
+			i := i
+			want[i] = c14Res{fmt.Sprintf("d%d/[%d]|%d|[%d]", 10*(i+1), 10*(i+1), 10*(i+1), 10*(i+1)), "<nil>"}
+			ctx := c14Base()
+			c14SetData(ctx, i)
+			bodies = append(bodies, func() {
+				o1, err := def.Exec(ctx)
+				if err != nil {
+					res[i] = c14Res{"", err.Error()}
+					return
+				}
+				o2, err := use.Exec(ctx)
+				res[i] = c14Res{o1 + "/" + o2, errStr(err)}
+			})
+		}
+		return bodies, res, want, func() {}
+	}})
 	sc = append(sc, c14Scenario{"parse-vs-cacheset", func(n int) ([]func(), []c14Res, []c14Res, func()) {
 		src := c14Templates[0].src
 		res := make([]c14Res, n)
@@ -332,7 +356,7 @@ func c14Explore(t *engine.T, sc c14Scenario) {
 	cleanup2()
 	if len(x2.Points) != len(x.Points) {
 		t.Case("determinism self-check "+sc.name, false, func() (string, *engine.Fail) {
-			return "", engine.Failf("harness", "the default schedule has %d points on the first run and %d on the second: uncontrolled nondeterminism", len(x.Points), len(x2.Points))
+			return "", engine.Failf("nondeterminism", "the default schedule of this scenario has %d scheduling points on the first run and %d on the second: the code under test carries state between executions that the scheduler does not control (e.g. a pool or a global); on the unchanged tree the two runs are identical", len(x.Points), len(x2.Points))
 		})
 		return
 	}
